@@ -302,9 +302,62 @@ def _fn(path):
     return parts[-1] if parts else path
 
 
+def r6(ctx, facts):
+    """the one-shot flags of R3 bound the retries only if one RetrySession lives as long as the logical request"""
+    r = ctx.rule("R6", "one RetrySession per execution fiber: created lazily, never replaced", floor=4)
+    NS = "scylla::policies::retry::retry_policy::RetryPolicy::new_session"
+    callers = [(b, bb) for b, bb in facts.callers_of(NS) if b.crate == "scylla" and bb in b.live_blocks]
+    if not callers:
+        raise AnchorLost("no caller of RetryPolicy::new_session in the driver")
+    for b, bb in callers:
+        key = _fn(b.path) + ("{closure}" if b.kind == "Closure" else "")
+        ok = False
+        why = "new_session() is called outside an `Option::get_or_insert_with` initialiser"
+        if b.kind == "Closure":
+            creator = facts.body(b.parent)
+            if creator is not None:
+                from ..util import uses_of_local
+                for cbb in creator.live_blocks:
+                    for st in creator.stmts(cbb):
+                        if st[0] == "A" and st[2][0] == "agg" and st[2][1][0] == "closure" and st[2][1][1] == b.path:
+                            uses = uses_of_local(creator, st[1][0])
+                            goi = [u for u in uses if u[1][0] == "arg" and creator.term(u[0])[1].get("def", "").endswith("Option::<T>::get_or_insert_with")]
+                            if goi and len(goi) == len(uses):
+                                t = creator.term(goi[0][0])
+                                d = _mini(creator, facts)
+                                recv = d.canon.path(t[2][0][1]) if t[2][0][0] in ("c", "m") else None
+                                ok = bool(recv) and recv[1][-1:] == ("retry_session",)
+                                why = "initialiser of %s" % (d.canon.fmt(recv) if recv else "?")
+        r.instance("session-created-lazily-once:" + key, ok, why + " (a session rebuilt per attempt forgets its one-shot retry flags: unbounded same-target retries)", b.term_span(bb))
+    # nobody else writes the slot
+    from ..util import field_writers
+    w = field_writers(facts, "scylla::client::execution::ExecuteRequestContext", ["retry_session"])
+    bad = sorted(x for x in w if x[0] not in ("ExecuteRequestContext::retry_session",) and x[2] != "construct")
+    r.instance("session-slot-writers", not bad, "ExecuteRequestContext.retry_session is written outside retry_session(): %s" % bad)
+    # constructed as None
+    inits = []
+    for b in facts.bodies.mentioning('"scylla::client::execution::ExecuteRequestContext"'):
+        for bb in b.live_blocks:
+            for st in b.stmts(bb):
+                if st[0] == "A" and st[2][0] == "agg" and st[2][1][0] == "adt" and st[2][1][1] == "scylla::client::execution::ExecuteRequestContext":
+                    op = st[2][2][st[2][1][4].index("retry_session")]
+                    sd = b.single_def(op[1][0]) if op[0] in ("c", "m") else None
+                    inits.append(bool(sd and sd[0] == "stmt" and sd[3][0] == "agg" and sd[3][1][0] == "adt" and sd[3][1][2] == "None"))
+    r.instance("session-slot-starts-empty", bool(inits) and all(inits), "each fiber's context must start with retry_session = None (%d construction sites)" % len(inits))
+    # the slot is not reset inside the fiber
+    fb = facts.one(r"run_request_speculative_fiber::\{closure#0\}$")
+    d = _mini(fb, facts)
+    resets = [st for bb in fb.live_blocks for st in fb.stmts(bb) if st[0] == "A" and st[1][1] and d.canon.path(st[1])[1][-1:] == ("retry_session",)]
+    r.instance("session-not-reset-in-fiber", not resets, "the fiber must not reassign context.retry_session", fb.span, nontrivial=False)
+
+
 def check(ctx):
     facts = ctx.facts("default")
     r1_r2_r3(ctx, facts)
+    try:
+        r6(ctx, facts)
+    except AnchorLost as ex:
+        ctx.rule("R6x", "session lifetime anchors").fail("anchor-lost", str(ex))
     ctx.rules  # R1-R3 registered inside
     try:
         r4(ctx, facts)
